@@ -274,8 +274,33 @@ c.modifies('self.sockets', 'self.sequence_number', 'self.start_service_task',
            'ghost.csprng', 'ghost.events', 'ghost.hresults', 'ghost.spawned', 'ghost.now', 'ghost.ws_log',
            'ghost.received', 'ghost.reads', 'ghost.sr_log', 'ghost.sr_headers')
 c.ghost_before('if self.http_compression and', 'r0', 'r')
-c.loop(1, index='i', invariants=[('status-kept', "r['status'] == r0['status']")],
-       modifies=['r'])
+METHODS = "('gzip', 'deflate')"
+c.loop(1, index='i', invariants=[
+    ('untouched-so-far', "r['status'] == r0['status'] and r['headers'] == r0['headers'] and "
+     "r['response'] == r0['response']"),
+    ('none-of-the-earlier-codings-is-supported',
+     'forall(lambda k: not supported(encodings[k]), 0, i)')],
+    modifies=['r'], props=['C19'])
+DECLARED = ("exists(lambda i: supported(offered(environ)[i]) and "
+            "forall(lambda k: not supported(offered(environ)[k]), 0, i) and "
+            "r['headers'] == r0['headers'] + [('Content-Encoding', offered(environ)[i])] and "
+            "r['response'] == compressed(offered(environ)[i], r0['response']), "
+            "0, len(offered(environ)))")
+ELIGIBLE = "self.http_compression and len(r0['response']) >= self.compression_threshold"
+c.check_before('cors_headers = self._cors_headers(environ)', 'status-kept',
+               "r['status'] == r0['status']")
+c.check_before('cors_headers = self._cors_headers(environ)',
+               'undeclared-body-is-never-compressed',
+               "implies(r['headers'] == r0['headers'], r['response'] == r0['response'])",
+               props=['C19'])
+c.check_before('cors_headers = self._cors_headers(environ)',
+               'declared-only-if-enabled-large-enough-and-offered',
+               "r['headers'] == r0['headers'] or (" + ELIGIBLE + " and " + DECLARED + ")",
+               props=['C19'])
+c.check_before('cors_headers = self._cors_headers(environ)',
+               'first-supported-offered-coding-is-used',
+               "implies(" + ELIGIBLE + " and exists(lambda i: supported(offered(environ)[i]), 0, "
+               "len(offered(environ))), r['headers'] != r0['headers'])", props=['C19'])
 NOT_GATED = 'not origin_refused(self.cors_allowed_origins, environ)'
 c.cut('if jsonp and jsonp_index is None:', [
     ('gate-passed', NOT_GATED),
